@@ -456,3 +456,159 @@ VARIANTS += [
     V('C11-M21', 'M', ('C11',), WK, 'Worker.run', r'(\n        )obj\.start\(q_in=q_in, q_out=q_out\)', r'\1obj.warm_up()\1obj.start(q_in=q_in, q_out=q_out)', ('C11-7',)),
     V('C11-E20', 'E', ALL, WK, 'Worker.start', r'(\n        )try:\n(\s+)if self\.batch_size > 1:', r'\1try:\n\2logger.debug("worker %s enters its service loop", self.name)\n\2if self.batch_size > 1:'),
 ]
+
+
+# ---------------------------------------------------------------------- extract-method refactors (helper inlining, mpsa/normalize.py)
+def _extract(old: str, call: str, helper: str, before: str):
+    """whole-file edit: replace the text `old` by `call` and insert `helper` (source of a new def) before the line `before`"""
+    def pat():
+        return re.escape(old)
+    return old, call, helper, before
+
+
+def _xm(vid, module, old, call, helper, before, note=''):
+    # two substitutions in one regex pass: (old block) | (anchor line before which the helper goes)
+    pattern = '(?P<blk>' + re.escape(old) + ')|(?P<anc>' + re.escape(before) + ')'
+
+    def repl(m, call=call, helper=helper):
+        if m.group('blk') is not None:
+            return call
+        return helper + m.group('anc')
+
+    return V(vid, 'E', ALL, module, None, pattern, repl, count=0, flags=0, note=note or 'extract method')
+
+
+VARIANTS += [
+    _xm('G-xm-01', SV,
+        """                if isinstance(y, RemoteException):
+                    y = y.exc
+                if not fut.cancelled():
+                    try:
+                        if isinstance(y, BaseException):
+                            fut.set_exception(y)
+                        else:
+                            fut.set_result(y)
+                    except concurrent.futures.InvalidStateError:
+                        # The caller cancelled the future (timeout, or an
+                        # abandoned stream) after the check above.
+                        pass
+                fut.data['t2'] = perf_counter()
+""",
+        """                self._resolve(fut, y)
+                fut.data['t2'] = perf_counter()
+""",
+        """    def _resolve(self, fut, y):
+        if isinstance(y, RemoteException):
+            y = y.exc
+        if not fut.cancelled():
+            try:
+                if isinstance(y, BaseException):
+                    fut.set_exception(y)
+                else:
+                    fut.set_result(y)
+            except concurrent.futures.InvalidStateError:
+                pass
+
+""",
+        "    def _wait_for_result(self, fut: concurrent.futures.Future):\n", note='resolution of the future extracted from the gather loop'),
+    _xm('G-xm-02', SV,
+        """                t = timeout * 0.99 - (perf_counter() - t0)
+                if t <= 0 or not self._pipeline_notfull.wait(t):
+                    raise ServerBacklogFull(len(pipeline), perf_counter() - t0)
+""",
+        """                self._wait_for_slot(timeout, t0, pipeline)
+""",
+        """    def _wait_for_slot(self, timeout, t0, pipeline):
+        t = timeout * 0.99 - (perf_counter() - t0)
+        if t <= 0 or not self._pipeline_notfull.wait(t):
+            raise ServerBacklogFull(len(pipeline), perf_counter() - t0)
+
+""",
+        "    def _wait_for_result(self, fut: concurrent.futures.Future):\n", note='admission wait extracted'),
+    _xm('G-xm-03', WK,
+        """                if isinstance(
+                    x, Exception
+                ):  # `RemteException` is not a subclass of `Exception`.
+                    x = RemoteException(x)
+                if isinstance(x, RemoteException):
+                    q_out.put((uid, x))
+                    continue
+""",
+        """                x = self._wrap_failure(x)
+                if isinstance(x, RemoteException):
+                    q_out.put((uid, x))
+                    continue
+""",
+        """    def _wrap_failure(self, x):
+        if isinstance(x, Exception):
+            x = RemoteException(x)
+        return x
+
+""",
+        "    def _start_single(self, *, q_in, q_out):\n", note='wrapping extracted, value returned'),
+    _xm('G-xm-04', ST,
+        """        while not tasks.empty():
+            z = tasks.get()
+            if z is None:
+                break
+            if isinstance(z, (Exception, StopRequested)):
+                break
+            _, t = z
+            t.cancel()
+        feeder.join()
+""",
+        """        _drain_and_cancel(tasks)
+        feeder.join()
+""",
+        """def _drain_and_cancel(tasks):
+    while not tasks.empty():
+        z = tasks.get()
+        if z is None:
+            break
+        if isinstance(z, (Exception, StopRequested)):
+            break
+        _, t = z
+        t.cancel()
+
+
+""",
+        "def fifo_stream(\n", note='clean-up drain extracted into a module-level function'),
+    _xm('G-xm-05', CX,
+        """        self._result_and_error_.close()
+        self._result_and_error_ = None
+        if error is not None:
+            self._future_.set_exception(error)
+        else:
+            self._future_.set_result(result)
+""",
+        """        self._result_and_error_.close()
+        self._result_and_error_ = None
+        self._publish(result, error)
+""",
+        """    def _publish(self, result, error):
+        if error is not None:
+            self._future_.set_exception(error)
+        else:
+            self._future_.set_result(result)
+
+""",
+        "    def _collect_result(self):\n", note='future resolution extracted from the collector'),
+    _xm('G-xm-06', SL,
+        """                    if isinstance(y, BaseException):
+                        y = RemoteException(y)
+
+                    z['y'][idx] = y
+                    z['n'] += 1
+""",
+        """                    if isinstance(y, BaseException):
+                        y = RemoteException(y)
+
+                    self._record(z, idx, y)
+""",
+        """    def _record(self, entry, idx, y):
+        entry['y'][idx] = y
+        entry['n'] += 1
+
+""",
+        "    def _dequeue(self):\n", note='slot store + counter extracted (parameter renamed)'),
+]
